@@ -27,7 +27,7 @@ LEVEL = ("Histories of 4-14 calls - building relaxation tensors (Redfield static
          "default state, a call repeated with the same arguments must return the same numbers as the first time, and a "
          "density-matrix propagator that has been used before (with or without additional Lorentzian/Gaussian pure "
          "dephasing, at other refinements) must return what a freshly constructed propagator with the same inputs returns."
-         " Later additions: deterministic X,Y,X histories over all pairs of call kinds; time-dependent combined tensor; one superoperator object recalculated with changing pure dephasing; refinement set / overridden by argument / default.")
+         " Later additions: deterministic X,Y,X histories over all pairs of call kinds; time-dependent combined tensor; one superoperator object recalculated with changing pure dephasing; refinement set / overridden by argument / default. Round five: state-vector propagation inside the eigenbasis; the non-equilibrium Foerster tensor with a second initial state.")
 NOTE = ("A propagator's refinement set explicitly with setDtRefinement is treated as an input of later default calls; "
         "the Nref *argument* of propagate() is not. dim <= 4, <= 60 time points, hierarchy depth <= 2.")
 RULE = ("history = list of ops over a pool built from gens.system_spec(N 2..3, coupled); op arguments are indices "
